@@ -2,7 +2,9 @@
 Lane REAL: real pools in a host process of their own.  (a) terminate() with
 workers idle / in Python code / in a C-level sleep / inside the task's own
 exception handler, with queued jobs, every pool size, with and without helper
-threads; then a second terminate() and garbage collection.  (b) a worker gets
+threads, on pools whose workers were recycled before the call, and while the
+task feeder is busy with one lazily produced imap input / one 300 000-element
+map; then a second terminate() and garbage collection.  (b) a worker gets
 the termination signal from an operator, terminate_job() or a hard limit in
 each of those states: it must stop its task, run the exit callback, exit, take
 no further job, and its job must not resolve with the signal's SystemExit.
